@@ -299,3 +299,210 @@ def shape_arg(rng, s, key):
     if c == "tuple":
         return {"t": [pyint(v) for v in s]}
     return {"d": [[key, a]]}
+
+
+# ---------------------------------------------------------------------------------------
+# graphs
+# ---------------------------------------------------------------------------------------
+def out_shape_of(kind, recipe, in_shape):
+    """ground-truth output shape of a node recipe given its input shape (forward oracle)"""
+    kw = dict((k, v) for k, v in recipe["kwargs"])
+    from canon import build
+    if kind in ELEMENTWISE or kind == "CubaLIF" or kind in ("Input", "Output"):
+        return list(in_shape)
+    if kind in ("Affine", "Linear"):
+        w = kw["weight"]["sh"]
+        return list(w[:-2]) + [w[-2]]
+    if kind == "Flatten":
+        s, e = kw["start_dim"]["i"], kw["end_dim"]["i"]
+        r = len(in_shape)
+        s2 = s + r if s < 0 else s
+        e2 = e + r if e < 0 else e
+        return list(in_shape[:s2]) + [int(np.prod(in_shape[s2:e2 + 1]))] + list(in_shape[e2 + 1:])
+
+    def per_axis(name, naxes):
+        v = build(kw[name])
+        if isinstance(v, str):
+            return v
+        a = np.asarray(v).ravel()
+        return [int(a[0])] * naxes if a.size == 1 else [int(x) for x in a]
+
+    def sl(n, p, d, k, s):
+        span, off, c = d * (k - 1) + 1, 0, 0
+        while off + span <= n + 2 * p:
+            c += 1
+            off += s
+        return c
+    if kind == "Conv1d":
+        w = kw["weight"]["sh"]
+        pad = per_axis("padding", 1)
+        if pad == "same":
+            return [w[0], in_shape[1]]
+        p = [0] if pad == "valid" else pad
+        return [w[0], sl(in_shape[1], p[0], per_axis("dilation", 1)[0], w[2], per_axis("stride", 1)[0])]
+    if kind == "Conv2d":
+        w = kw["weight"]["sh"]
+        pad = per_axis("padding", 2)
+        if pad == "same":
+            return [w[0]] + list(in_shape[1:])
+        p = [0, 0] if pad == "valid" else pad
+        d, s = per_axis("dilation", 2), per_axis("stride", 2)
+        return [w[0]] + [sl(in_shape[1 + i], p[i], d[i], w[2 + i], s[i]) for i in range(2)]
+    if kind in ("SumPool2d", "AvgPool2d"):
+        k, s, p = per_axis("kernel_size", 2), per_axis("stride", 2), per_axis("padding", 2)
+        return [in_shape[0]] + [sl(in_shape[1 + i], p[i], 1, k[i], s[i]) for i in range(2)]
+    raise ValueError(kind)
+
+
+def node_for_input(rng, in_shape, allow=None):
+    """a valid node recipe consuming `in_shape`; returns (kind, recipe)"""
+    rank = len(in_shape)
+    kinds = ["Scale", "Threshold", "Delay", "I", "IF", "LI", "LIF", "CubaLIF"]
+    if rank >= 1:
+        kinds += ["Affine", "Linear", "Flatten", "Flatten"]
+    if rank == 2:
+        kinds += ["Conv1d"] * 3
+    if rank == 3:
+        kinds += ["Conv2d"] * 4 + ["SumPool2d", "AvgPool2d"] * 2
+    if allow:
+        kinds = [k for k in kinds if k in allow] or kinds
+    for _ in range(50):
+        kind = rng.choice(kinds)
+        if kind in ("SumPool2d", "AvgPool2d"):
+            rec = node_recipe(rng, kind, meta_p=0.1)
+            try:
+                o = out_shape_of(kind, rec, in_shape)
+            except Exception:
+                continue
+            if min(o) < 1:
+                continue
+            return kind, rec
+        if kind == "Conv1d" and in_shape[1] < 1:
+            continue
+        rec = node_recipe(rng, kind, sh=list(in_shape), meta_p=0.1,
+                          dtype="<f8" if kind in ELEMENTWISE else None)
+        o = out_shape_of(kind, rec, in_shape)
+        if min(o + [1]) < 1:
+            continue
+        return kind, rec
+    rec = node_recipe(rng, "Scale", sh=list(in_shape), meta_p=0.0, dtype="<f8")
+    return "Scale", rec
+
+
+def consistent_graph(rng, max_nodes=8, erase=True, wrong_output=True):
+    """A type-consistent graph built forwards from an Input, with fan-out, fan-in,
+    residual/recurrent/self/parallel edges between nodes of equal shape; returns
+    (recipe, truth) where truth maps node name -> (in_shape, out_shape) and the recipe may
+    have erasable annotations erased."""
+    n_in = 1 if rng.random() < 0.8 else 2
+    nodes, edges, truth = [], [], {}
+    frontier = []   # (name, out_shape)
+    for i in range(n_in):
+        s = shape(rng, rank=rng.randrange(1, 4), lo=1, hi=6)
+        if rng.random() < 0.5:
+            s = [rng.randrange(1, 3), rng.randrange(4, 12), rng.randrange(4, 12)]
+        name = f"in{i}" if rng.random() < 0.7 else rng.choice(["input", "é", "x y"]) + str(i)
+        nodes.append([name, {"type": "Input", "kwargs": [["input_type", shape_arg(rng, s, "input")]]}])
+        truth[name] = (list(s), list(s))
+        frontier.append((name, list(s)))
+    n_mid = rng.randrange(1, max_nodes)
+    for i in range(n_mid):
+        src, s = rng.choice(frontier)
+        kind, rec = node_for_input(rng, s)
+        name = f"n{i}"
+        o = out_shape_of(kind, rec, s)
+        nodes.append([name, rec])
+        truth[name] = (list(s), o)
+        edges.append([src, name])
+        frontier.append((name, o))
+    # outputs on some sinks / random nodes
+    outs = rng.sample(frontier[n_in:], k=min(len(frontier) - n_in, rng.randrange(1, 3)))
+    for i, (src, s) in enumerate(outs):
+        name = f"out{i}"
+        nodes.append([name, {"type": "Output", "kwargs": [["output_type", shape_arg(rng, s, "output")]]}])
+        truth[name] = (list(s), list(s))
+        edges.append([src, name])
+    # extra edges between shape-compatible nodes (fan-in, residual, recurrent, self, parallel)
+    names = [n for n, _ in nodes]
+    for _ in range(rng.randrange(0, 4)):
+        a = rng.choice(names)
+        cands = [b for b in names if truth[b][0] == truth[a][1]
+                 and dict(nodes)[b]["type"] != "Input"]
+        if cands:
+            edges.append([a, rng.choice(cands)])
+    if rng.random() < 0.3 and edges:
+        edges.append(list(rng.choice(edges)))
+    rng.shuffle(edges)
+    if rng.random() < 0.5:
+        rng.shuffle(nodes)
+    erased = []
+    if erase:
+        for name, rec in nodes:
+            t = rec["type"]
+            if rng.random() < 0.6:
+                if t in ("Conv1d", "Conv2d"):
+                    rec["kwargs"] = [[k, (None if k == "input_shape" else v)] for k, v in rec["kwargs"]]
+                    erased.append(name)
+                elif t == "Flatten":
+                    rec["kwargs"] = [[k, (None if k == "input_type" else v)] for k, v in rec["kwargs"]]
+                    erased.append(name)
+                elif t == "Output":
+                    if wrong_output and rng.random() < 0.4:
+                        wrong = [x + 1 for x in truth[name][0]] + ([2] if rng.random() < 0.3 else [])
+                        rec["kwargs"] = [["output_type", shape_arg(rng, wrong, "output")]]
+                    else:
+                        rec["kwargs"] = [["output_type", None]]
+                    erased.append(name)
+    g = {"type": "NIRGraph", "nodes": nodes, "edges": edges, "meta": None}
+    return g, truth, erased
+
+
+def rand_name(rng, slash=False):
+    r = rng.random()
+    if r < 0.6:
+        n = rng.choice(NAMES)
+    elif r < 0.8:
+        n = "".join(rng.choice("abcxyz01_- .éß键😀µ") for _ in range(rng.randrange(1, 8)))
+    else:
+        n = "n%d" % rng.randrange(1000)
+    if slash and rng.random() < 0.5:
+        n = n + "/" + rng.choice(["b", "x", ""])
+    if n in (".", ""):
+        n = "dot"
+    return n
+
+
+def random_graph(rng, depth=0, maxdepth=3, max_nodes=8, slash=False, meta_p=0.3):
+    """Any graph of the C01 domain: all primitives, nesting, arbitrary names, arbitrary edge
+    multiset (cyclic, self-loops, parallel, dangling, dotted), metadata anywhere.  Not
+    necessarily type-consistent."""
+    n = rng.randrange(0, max_nodes + 1)
+    nodes, used = [], set()
+    for _ in range(n):
+        name = rand_name(rng, slash=slash)
+        if name in used:
+            continue
+        used.add(name)
+        if depth < maxdepth and rng.random() < 0.15:
+            nodes.append([name, random_graph(rng, depth + 1, maxdepth, max_nodes=4, slash=slash, meta_p=meta_p)])
+        else:
+            kind = rng.choice(LEAF_KINDS)
+            nodes.append([name, node_recipe(rng, kind, meta_p=meta_p)])
+    names = [x for x, _ in nodes]
+    edges = []
+    for _ in range(rng.randrange(0, 2 * max(1, len(names)))):
+        def endpoint():
+            r = rng.random()
+            if names and r < 0.75:
+                return rng.choice(names)
+            if names and r < 0.9:
+                return rng.choice(names) + "." + rng.choice(["input", "output", "x", "a.b"])
+            return rng.choice(["ghost", "nowhere.x", "é"])
+        edges.append([endpoint(), endpoint()])
+    if edges and rng.random() < 0.3:
+        edges.append(list(rng.choice(edges)))
+    if names and rng.random() < 0.3:
+        x = rng.choice(names)
+        edges.append([x, x])
+    meta = metadata(rng) if rng.random() < meta_p else None
+    return {"type": "NIRGraph", "nodes": nodes, "edges": edges, "meta": meta}
